@@ -219,6 +219,9 @@ package lib
 // back at exactly this phantom and identifier - without it the registration would never expire (C08) and would stay
 // connectable after its lifetime (C02)
 //@   ensures @C08 @C02: result == nil && old(trackedReg(r, d)) == nil ==> concat(idStringOf(d), ipString(d.PhantomIp)) in r.decoysTimeouts && r.decoysTimeouts[concat(idStringOf(d), ipString(d.PhantomIp))].decoy == ipString(d.PhantomIp) && r.decoysTimeouts[concat(idStringOf(d), ipString(d.PhantomIp))].identifier == identOf(r.transports[d.Transport], box(d)) && r.decoysTimeouts[concat(idStringOf(d), ipString(d.PhantomIp))].status == regStatusUnused
+// ... and tracking a registration never replaces the expiry record of ANOTHER registration (which would then be kept
+// forever): every record that existed is still there, unchanged
+//@   ensures @C08 @C02: forall k string :: old(k in r.decoysTimeouts) ==> k in r.decoysTimeouts && r.decoysTimeouts[k] == old(r.decoysTimeouts[k])
 //@   assigns allof(DecoyRegistration.Valid), allof(DecoyRegistration.regCount), allmaps(r.decoys), allmaps(r.decoys[""]), allmaps(r.decoysTimeouts), allof(DecoyTimeout.status), now()
 
 //@ func (r *RegisteredDecoys) totalRegistrations() int
